@@ -21,7 +21,32 @@
 #define S_DEAD 2      /* unmarked pair */
 
 static struct sexp_heap_t heap_hdr;
-#if MODE >= 3
+#if MODE == 6
+/* finalizers: root pair | fileno | input port (3 slots) | spare pair, or with FD_AFTER_PORT the fileno behind the port */
+#include "objalloc.h"
+struct kit_slot { struct kit_f_hdr h; sexp a, b, c; };
+struct kit_fd_slot { struct kit_f_hdr h; KIT_M(fileno) m __attribute__((aligned(8))); };
+struct kit_port_slots { struct kit_f_hdr h; KIT_M(port) m __attribute__((aligned(8))); char pad[96 - sexp_sizeof(port)]; };
+_Static_assert(sizeof(struct kit_fd_slot) == 32 && sizeof(struct kit_port_slots) == 96 && sexp_heap_align(sexp_sizeof(port)) == 96, "fileno = 1 slot, port = 3 slots");
+/* the spare (dead) pair sits in front: a free run then always starts in a pair-shaped slot, and the free-list
+   node the sweep writes there never overlays the char fields of the descriptor object (such a type-punned
+   store turns the whole heap image into bytes for cbmc and nothing folds afterwards) */
+#define IDX_Q 1
+#ifdef FD_AFTER_PORT
+static struct { struct sexp_free_list_t sentinel; char pad[16]; struct kit_slot r; struct kit_slot q; struct kit_port_slots p; struct kit_fd_slot f; char tail[16]; } heap_img;
+#define IDX_P 2
+#define IDX_F 5
+#else
+static struct { struct sexp_free_list_t sentinel; char pad[16]; struct kit_slot r; struct kit_slot q; struct kit_fd_slot f; struct kit_port_slots p; char tail[16]; } heap_img;
+#define IDX_F 2
+#define IDX_P 3
+#endif
+#define heap_mem ((sexp_uint_t *)&heap_img)
+static int close_calls, close_fd;
+KIT_C_BEGIN
+int close(int fd) { close_calls++; close_fd = fd; return 0; }      /* the resource release being counted */
+KIT_C_END
+#elif MODE >= 3
 /* concrete layout (four objects): a typed heap image, so that tags and stored object addresses stay
    symex constants while the real marker walks it */
 #include "objalloc.h"
@@ -44,7 +69,10 @@ static void build_heap(sexp ctx) {
   sexp_context_heap(ctx) = &heap_hdr;
   sexp_free_list prev = heap_hdr.free_list;
   prev->size = 0; prev->next = NULL;
-#if MODE >= 3
+#if MODE == 6
+  for (int i = 0; i < K; i++) kind[i] = S_DEAD;
+  kind[IDX_F] = kind[IDX_P] = kind[IDX_P + 1] = kind[IDX_P + 2] = 3;   /* descriptor and port: typed slots, initialised by the harness */
+#elif MODE >= 3
   for (int i = 0; i < K; i++) kind[i] = S_DEAD;      /* concrete layout: four unmarked objects */
 #else
   for (int i = 0; i < K; i++) { kind[i] = nondet_uchar(); __CPROVER_assume(kind[i] <= S_DEAD); }
@@ -58,6 +86,8 @@ static void build_heap(sexp ctx) {
         n->size = SLOT; n->next = NULL;
         prev->next = n; prev = n;
       }
+    } else if (kind[i] == 3) {
+      continue;
     } else {
       sexp p = (sexp)SLOT_ADDR(i);
       sexp_pointer_tag(p) = SEXP_PAIR;
@@ -176,6 +206,55 @@ void harness(void) {
   if (!key_reachable) { expect[2] = 1; expect[3] = 1; }
   check_heap(ctx, expect);
   if (key_reachable) KIT_ASSERT(sexp_pointer_tag(VAL) == SEXP_PAIR && sexp_cdr(VAL) == SEXP_NULL, "the retained value is intact after the sweep");
+#elif MODE == 6
+  /* C16 finalizers: slot 0 root pair R; a file-descriptor object F (1 slot); an input port P over F (3 slots);
+     a spare pair Q.  R.car = P or #f, R.cdr = F or #f (per-query constants); F's open/no-close flags, the
+     port's open/no-close flags and the share count (1 or 2) are free.  Real mark from R, real sexp_finalize,
+     real sweep; close() is counted. */
+  sexp R = (sexp)SLOT_ADDR(0), F = (sexp)SLOT_ADDR(IDX_F), P = (sexp)SLOT_ADDR(IDX_P), Q = (sexp)SLOT_ADDR(IDX_Q);
+  sexp_pointer_tag(F) = SEXP_FILENO; sexp_pointer_tag(P) = SEXP_IPORT;
+  _Bool f_open = nondet_bool(), f_noclose = nondet_bool(), p_open = nondet_bool(), p_noclose = nondet_bool();
+  sexp_sint_t count0 = nondet_bool() ? 2 : 1;
+  sexp_fileno_fd(F) = 7; sexp_fileno_openp(F) = f_open; sexp_fileno_no_closep(F) = f_noclose; sexp_fileno_count(F) = count0;
+  sexp_port_name(P) = R; sexp_port_cookie(P) = R; sexp_port_fd(P) = F;   /* live objects rather than #f: see the note on R below */ sexp_port_stream(P) = NULL; sexp_port_buf(P) = NULL;
+  sexp_port_openp(P) = p_open; sexp_port_no_closep(P) = p_noclose; sexp_port_shutdownp(P) = 0; sexp_port_bidirp(P) = 0; sexp_port_binaryp(P) = 0;
+  sexp_port_offset(P) = 3; sexp_port_size(P) = 9;
+  _Bool port_reachable = PORT_REACHABLE, fd_reachable = FD_REACHABLE || PORT_REACHABLE;
+  /* "no reference" is a self reference of the root, not #f: the marker compares adjacent slots, and an
+     address compared with an immediate constant does not fold in symex (R12) */
+  sexp_car(R) = PORT_REACHABLE ? P : R; sexp_cdr(R) = FD_REACHABLE ? F : R;
+  sexp_mark(ctx, R);
+  KIT_ASSERT(sexp_markedp(R) && !sexp_markedp(Q), "the root is marked, the unreferenced pair is not");
+  KIT_ASSERT(!!sexp_markedp(P) == port_reachable && !!sexp_markedp(F) == fd_reachable, "port and descriptor are marked iff reachable (a port keeps its descriptor alive)");
+  sexp fr = sexp_finalize(ctx);
+  KIT_ASSERT(sexp_fixnump(fr), "the finalizer pass completes");
+  KIT_ASSERT(close_calls <= 1, "a descriptor is closed at most once in one collection");
+  if (close_calls) KIT_ASSERT(close_fd == 7, "only the descriptor of the finalized object is closed");
+  if (port_reachable) {
+    KIT_ASSERT(close_calls == 0, "nothing is closed while the owning port is reachable");
+    KIT_ASSERT(!!sexp_port_openp(P) == p_open && !!sexp_fileno_openp(F) == f_open && sexp_fileno_count(F) == count0 && sexp_port_size(P) == 9, "reachable port and descriptor are untouched");
+  } else {
+    KIT_ASSERT(!sexp_port_openp(P), "an unreachable port is closed");
+  }
+  if (!fd_reachable && f_open && !f_noclose) {
+    KIT_ASSERT(close_calls == 1 && !sexp_fileno_openp(F), "the descriptor of an unreachable open file-descriptor object is released exactly once");
+  }
+  if (fd_reachable && !port_reachable && count0 == 2 && p_open && f_open && !p_noclose) {
+    KIT_ASSERT(close_calls == 0 && sexp_fileno_count(F) == 1 && sexp_fileno_openp(F), "a descriptor shared with another port stays open when one of its ports is collected");
+  }
+  if (!f_open || f_noclose) KIT_ASSERT(close_calls == 0, "a descriptor that is already closed, or marked no-close, is never closed");
+  size_t sum = 0;
+  sexp_sweep(ctx, &sum);
+  for (int i = 0; i < K; i++) expect[i] = 0;
+  expect[IDX_Q] = 1;
+  if (!port_reachable) { expect[IDX_P] = 1; expect[IDX_P + 1] = 1; expect[IDX_P + 2] = 1; }
+  if (!fd_reachable) expect[IDX_F] = 1;
+  check_heap(ctx, expect);
+  /* a second finalizer pass (next collection) must not release anything again */
+  int before = close_calls;
+  sexp_mark(ctx, R);
+  sexp_finalize(ctx);
+  KIT_ASSERT(close_calls == before, "a later collection does not release the same descriptor again");
 #elif MODE == 5
   /* chain: R -> E2, E1, KEY1;  E1 = (KEY1 => KEY2),  E2 = (KEY2 => VAL2), with E2 placed BEFORE E1 in the heap so
      that the value pass needs a second round: KEY2 is alive only as E1's value, VAL2 only as E2's value */
